@@ -72,7 +72,7 @@ func runC13(c *Ctx) {
 	// ---- R2 who may call Write / unbatched mutators
 	allowed := map[*ssa.Function]bool{addBlock: true, removeBlock: true, clearTemp: true}
 	nW := 0
-	for _, fn := range p.OwnFuncs {
+	for _, fn := range p.Subjects() {
 		if !IsProd(fn) {
 			continue
 		}
@@ -126,14 +126,17 @@ func runC13(c *Ctx) {
 		}
 		bv := nb[0].Call.Value()
 		uses := 0
-		for _, call := range AllCalls(f) {
+		for _, call := range AllCallsDeep(f) {
+			if newHelperCallee(call) != nil {
+				continue // what the helper does with the batch is examined inside it
+			}
 			args := call.Common().Args
 			for _, a := range args {
 				if !isBatchType(a.Type()) {
 					continue
 				}
 				uses++
-				src := stripConv(a)
+				src := valueRoot(a)
 				c.Require("C13.R3 same-batch", FuncKey(f)+" ⇒ "+CalleeName(call.Common()), p.InstrPos(call),
 					"every writer receives the function's single NewBatch() value", src == ssa.Value(bv), "argument: "+T(a).String())
 			}
@@ -233,7 +236,7 @@ func runC13(c *Ctx) {
 	}
 
 	// ---- R6 other users of Write: one batch, one Write per path
-	for _, fn := range p.OwnFuncs {
+	for _, fn := range p.Subjects() {
 		if !IsProd(fn) || allowed[fn] {
 			continue
 		}
